@@ -26,5 +26,6 @@ func init() {
 	} {
 		props[id] = propInfo{Level: "exploration", Rule: gateRule + nt, Assum: bubble}
 	}
+	props["C14"] = propInfo{Level: "exploration", Rule: "cases = ALL call sequences over {Bind(any of the six bind methods), Pause, PauseAndWait, Resume, Stop, WaitAndStop, Restart, TunePool(new), TunePool(same), cancel the configured context} up to length 4 (quick) / 5 (thorough) x {context, no context} x {idle expiry on/off} x {no jobs, a job submitted before every call and in flight on the fake clock}, enumerated exhaustively, plus random sequences of length 6-20 under stall plans around the asynchronous context listener; after every call the bubble settles and error class, Status and the Is* predicates are compared with the reference machine; a probe job must run iff the reference state is Running and a final Restart must process everything pending; distinct = distinct (configuration, call sequence[, stall plan]); non-trivial = sequences of length >= 2", Assum: bubble, Exhaustive: "all call sequences up to the stated length for each of the 8 configurations (bounded layer only)"}
 	props["C06"] = propInfo{Level: "exploration", Rule: "episodes = generated client programs (producers, cancels, purge, 1-2 barrier callers) x stall plans (unplanned runs, every single-stall placement at the first K hits of each reached site, sampled pairs); non-trivial = a barrier call overlapped a job's start or finish, or parked behind cancelled/purged jobs; distinct = distinct (client-boundary event-order signature, stall plan)", Assum: bubble}
 }
